@@ -282,7 +282,10 @@ def rule_cs0013(ctx):
     fn = find_fn(SA, "find_signal_assignments")
     if fn is None:
         return ctx.missing(R, "find_signal_assignments")
-    pushes = [p for p in method_calls(fn["body"], "push") if render(strip(p["recv"])) == "reports"]
+    import alpha
+
+    fn, _miss = alpha.canon(fn, [("assignment", "forvar", "__u.get_assignments()")])
+    pushes = [p for p in method_calls(fn["body"], "push") if "report" in render(p["args"][0])]
     ctx.floor(R, "report-pushes", len(pushes), 2)
     for p in pushes:
         b = render(p["args"][0])
